@@ -54,8 +54,8 @@ _GEN = ('depth<=2/yield-tail events/gen', [('gen', 'YIELD6', 1), ('gen', 'YIELD6
 DISK6 = ('rename_def', 'change_params', 'paste', 'save', 'reload', 'undo')
 _DISK = ('depth<=2/disk events/funcs', [('funcs', 'DISK6', 1), ('funcs', 'DISK6', 2)])
 # a project with a sibling module on disk that holds the only caller of a buffer function
-DYN5 = ('add_list_loop', 'rename_def', 'paste', 'type', 'undo')
-_DYN = ('depth<=2/sibling-module project/dyn', [('dyn', 'DYN5', 1), ('dyn', 'DYN5', 2)])
+DYN4 = ('add_list_loop', 'rename_def', 'paste', 'undo')
+_DYN = ('depth<=2/sibling-module project/dyn', [('dyn', 'DYN4', 1), ('dyn', 'DYN4', 2)])
 # levels, simplest first: (name, [(base, alphabet name, depth), ...])
 PLANS = {
     'quick': [('depth1/13 events', [(b, 'Q13', 1) for b in _B]),
@@ -66,7 +66,7 @@ PLANS = {
                  _GEN, _DISK, _DYN,
                  ('depth3/yield-tail events/gen', [('gen', 'YIELD6', 3)]),
                  ('depth3/disk events/funcs', [('funcs', 'DISK6', 3)]),
-                 ('depth3/sibling-module project/dyn', [('dyn', 'DYN5', 3)]),
+                 ('depth3/sibling-module project/dyn', [('dyn', 'DYN4', 3)]),
                  ('depth2/13 events', [(b, 'Q13', 2) for b in _B]),
                  ('depth2/28 events/mixed', [('mixed', 'ALL28', 2)]),
                  ('depth3/13 events', [(b, 'Q13', 3) for b in _B]),
@@ -76,7 +76,7 @@ PLANS = {
     'dev': [('depth1/13 events', [(b, 'Q13', 1) for b in _B]),
             ('depth2/core 7 events/funcs', [('funcs', 'CORE7', 2)])],
 }
-ALPHABETS = {'Q13': model.QUICK_ALPHABET, 'YIELD6': YIELD6, 'DISK6': DISK6, 'DYN5': DYN5, 'CORE7': CORE7, 'CORE5': CORE5,
+ALPHABETS = {'Q13': model.QUICK_ALPHABET, 'YIELD6': YIELD6, 'DISK6': DISK6, 'DYN4': DYN4, 'CORE7': CORE7, 'CORE5': CORE5,
              'ALL28': model.ALL_EVENTS}
 
 
@@ -544,7 +544,7 @@ def task_sequence(task):
                         [tuple(p) for p in task.get('exclude', ())])
     mine = shard_histories(hs, task['seed'], task['shard'], task['nshards'])
     return [(mode, base, events) for mode in task['modes'] for base, events, _ in mine
-            if mode == 'path' or not model.path_only(events)]
+            if mode == 'path' or not (model.path_only(events) or base in model.SIBLINGS)]
 
 
 def _work(task):
@@ -608,8 +608,8 @@ def _run_oracles(ctx, wanted, label, batch):
     wanted = [w for w in wanted
               if not os.path.exists(job_file(w))]
     if batch > 1:
-        plain = [w for w in wanted if not w.get('strict')]
-        wanted = [w for w in wanted if w.get('strict')]
+        plain = [w for w in wanted if not (w.get('strict') or w.get('solo'))]
+        wanted = [w for w in wanted if w.get('strict') or w.get('solo')]
         for grp in _batches(plain, batch):
             head = dict(grp[0])
             head['more'] = [{k: w[k] for k in ('base', 'text', 'disk', 'nocode') if k in w}
@@ -633,6 +633,25 @@ def state_job(base, state):
         job['disk'] = disk
     if nocode:
         job['nocode'] = True
+    return job
+
+
+def modes_of(base):
+    """Bases that live in a project with sibling modules are explored in path mode only (a
+    path-less buffer has no project files around it)."""
+    return ('path',) if base in model.SIBLINGS else MODES
+
+
+def oracle_job(base, state, warm):
+    """The oracle job of a buffer state.  Default: one interpreter answers mode none, then mode
+    path (and may serve further texts, see oracle_batch).  For bases whose answers depend on
+    other project files the interpreter is single-purpose (`solo`: one state, path mode), so
+    that nothing it analysed before can reach into the cross-file search."""
+    job = dict(state_job(base, state), warm=warm)
+    if base in model.SIBLINGS:
+        job.update(modes=['path'], solo=True)
+    else:
+        job['modes'] = list(reversed(MODES))
     return job
 
 
@@ -664,11 +683,10 @@ def run(ctx):
     if p.returncode != 0:
         ctx.harness_error('warm-up process failed: ' + (p.stderr or '')[-1500:])
         return
-    both = list(reversed(MODES))        # mode none first, then path, in one fresh interpreter
     # self-check of the oracle on the base texts: one mode per process, empty cache directory
     checks = [{'base': b, 'text': model.BASES[b], 'modes': [m], 'strict': '%s-0' % m}
-              for b in model.BASES for m in MODES]
-    base_jobs = [{'base': b, 'text': model.BASES[b], 'modes': both, 'warm': warm}
+              for b in model.BASES for m in modes_of(b)]
+    base_jobs = [oracle_job(b, (model.BASES[b], model.BASES[b], False), warm)
                  for b in model.BASES]
     seen_texts = {(b, model.BASES[b], model.BASES[b], False) for b in model.BASES}
     n_oracles = 1 + len(checks) + len(base_jobs)
@@ -697,13 +715,14 @@ def run(ctx):
             for st in model.history_states(base, events)[1:]:
                 if (base,) + st not in seen_texts:
                     seen_texts.add((base,) + st)
-                    jobs.append(dict(state_job(base, st), modes=both, warm=warm))
+                    jobs.append(oracle_job(base, st, warm))
         t1 = _real_time.time()
         extra = []
         if li == 0:
             # cross-check of a batched oracle: the text served LAST by each interpreter of the
             # first level is also answered by single-purpose fresh interpreters
-            for grp in _batches(base_jobs + jobs, batch) if batch > 1 else []:
+            for grp in _batches([j for j in base_jobs + jobs if not j.get('solo')],
+                                batch) if batch > 1 else []:
                 if len(grp) > 1:
                     checks += [{'base': grp[-1]['base'], 'text': grp[-1]['text'], 'modes': [m],
                                 'strict': '%s-0' % m} for m in MODES]
@@ -976,7 +995,8 @@ ASSUMPTIONS = [
     'change_params, paste, undo to depth 2 (thorough 3)',
     'base `dyn` lives in a project whose sibling module client.py (on disk) holds the only '
     'call of a buffer function (dynamic parameter search across files); explored with '
-    'add_list_loop, rename_def, paste, type, undo to depth 2 (thorough 3)',
+    'add_list_loop, rename_def, paste, undo to depth 2 (thorough 3), in path mode only; the '
+    'oracle of each of its states is a single-purpose fresh interpreter (path mode, one state)',
     'a reported violation is always confirmed by two single-purpose fresh interpreters (at most '
     '2 per failure site and 12 buffer states per run; the rest is counted as not re-confirmed)',
     'quick tier: all histories of depth <= 2 over the 13-event alphabet on 3 bases x 2 modes '
